@@ -24,6 +24,30 @@ KNOWN = os.path.join(HERE, "known_findings.json")
 LEVEL = "model_checking"
 
 
+class patched:
+    """with patched(module, name=value, ...): module globals replaced (stubs), restored afterwards;
+    a global the module no longer has is added and removed again (refactorings must not break us)"""
+
+    _MISSING = object()
+
+    def __init__(self, mod, **kw):
+        self.mod, self.kw = mod, kw
+
+    def __enter__(self):
+        self.old = {k: getattr(self.mod, k, self._MISSING) for k in self.kw}
+        for k, v in self.kw.items():
+            setattr(self.mod, k, v)
+        return self
+
+    def __exit__(self, *a):
+        for k, v in self.old.items():
+            if v is self._MISSING:
+                delattr(self.mod, k)
+            else:
+                setattr(self.mod, k, v)
+        return False
+
+
 class Ctx:
     def __init__(self, pid, tier, seed):
         self.pid = pid
